@@ -277,6 +277,14 @@ pub fn run(ctx: &mut Ctx) {
         let ty = *r.pick(&types);
         name_case(ctx, ty, &n, "random-names");
     }
+    // names over the rule-sensitive alphabet (letters whose lower-case form changes length, sigma, separators)
+    let mut r = ctx.rng("c08.rule-names");
+    for _ in 0..ctx.share(150_000, 4_000_000) {
+        let h = super::values::name_hist(&mut r);
+        if let Some(ty) = types.iter().find(|t| **t == h.ty) {
+            name_case(ctx, ty, &h.name, "rule-sensitive-names");
+        }
+    }
     // typed vs untyped: G1 in the typed contexts (complete), legal spellings, mutated corpus
     let (w, nw, quick) = (ctx.worker, ctx.nworkers, ctx.quick());
     let mut f = |_i: u64, s: &str| twin_case(ctx, s);
